@@ -76,6 +76,11 @@ using GenFactory = std::function<rc::Gen<Case>(Tier)>;
 std::map<std::string, GenFactory> &registry();
 struct Register { Register(const char *id, GenFactory f) { registry()[id] = std::move(f); } };
 
+// small-scope program spaces for systematic schedule enumeration (thorough tier): count + i-th program (schedule empty)
+struct EnumSpace { size_t count = 0; std::function<Case(size_t)> at; const char *description = ""; };
+std::map<std::string, EnumSpace> &enum_registry();
+struct RegisterEnum { RegisterEnum(const char *id, EnumSpace e) { enum_registry()[id] = std::move(e); } };
+
 } // namespace vf
 
 namespace rc {
